@@ -272,7 +272,7 @@ def run(tier, seed):
     modules.append(mpy)
     # use contexts that bypass the string table: bytes literal -> char* (own C literal), str literal -> docstring
     singles = [c for c in shortc if c.rec["fam"] in ("single", "variants", "concat")]
-    ctxs = core.sample(singles, 2400 if thorough else 500, rng)
+    ctxs = core.sample(singles, 2400 if thorough else 300, rng)
     doc_isolated = []
     mctx = L.Module("c10ctx", table=False)
     for c in ctxs:
